@@ -221,6 +221,14 @@ def eq_formula(ctx, a: SBytes, b: SBytes):
                 else:
                     conj.append(zint(x) == zint(y))
             return z3.And(conj) if conj else True
+    # one side of small concrete length: length equation + pointwise comparison
+    for x, y, lx, ly in ((a, b, la, lb), (b, a, lb, la)):
+        if isinstance(lx, int) and lx <= 256 and not isinstance(ly, int):
+            ux = units(ctx, x, lx)
+            conj = [zint(ly) == lx]
+            for i, bx in enumerate(ux):
+                conj.append(at_term(ctx, y, z3.IntVal(i)) == zint(bx))
+            return z3.And(conj)
     # aligned identical segments
     if len(a.segs) == len(b.segs):
         conj = []
@@ -265,18 +273,57 @@ def _same_seg(s, t):
     return False
 
 
-def model_bytes(model, rope: SBytes, limit=1 << 20):
-    """concrete bytes of a rope under a model"""
-    out = bytearray()
+def model_bytes(model, rope: SBytes, limit=1 << 26):
+    """concrete bytes of a rope under a model -> hex string, or for long strings a compact
+    {"len", "fill", "patch"} description read off the function interpretation"""
+    ev = lambda t: model.eval(t, model_completion=True).as_long()
+    total = 0
+    parts = []
     for s in rope.segs:
         if isinstance(s, Unit):
-            b = s.b if isinstance(s.b, int) else model.eval(s.b, model_completion=True).as_long()
-            out.append(b & 0xFF)
+            parts.append(("u", (s.b if isinstance(s.b, int) else ev(s.b)) & 0xFF))
+            total += 1
         else:
-            n = s.n if isinstance(s.n, int) else model.eval(zint(s.n), model_completion=True).as_long()
-            off = s.off if isinstance(s.off, int) else model.eval(zint(s.off), model_completion=True).as_long()
-            if n > limit:
-                raise ValueError(f"byte string of length {n} in counterexample")
-            for j in range(max(n, 0)):
-                out.append(model.eval(s.fn(z3.IntVal(off + j)), model_completion=True).as_long() & 0xFF)
-    return bytes(out)
+            n = s.n if isinstance(s.n, int) else ev(zint(s.n))
+            off = s.off if isinstance(s.off, int) else ev(zint(s.off))
+            n = max(n, 0)
+            parts.append(("v", s.fn, off, n))
+            total += n
+    if total > limit:
+        raise ValueError(f"byte string of length {total} in counterexample")
+    if total <= 8192:
+        out = bytearray()
+        for p in parts:
+            if p[0] == "u":
+                out.append(p[1])
+            else:
+                _, fn, off, n = p
+                for j in range(n):
+                    out.append(ev(fn(z3.IntVal(off + j))) & 0xFF)
+        return bytes(out).hex()
+    # long: default fill + explicit entries of the function interpretation
+    patch = {}
+    fill = 0
+    pos = 0
+    for p in parts:
+        if p[0] == "u":
+            patch[pos] = p[1]
+            pos += 1
+            continue
+        _, fn, off, n = p
+        fi = model[fn]
+        if fi is not None:
+            ev_else = fi.else_value()
+            if z3.is_int_value(ev_else):
+                fill = ev_else.as_long() & 0xFF
+            for e in range(fi.num_entries()):
+                ent = fi.entry(e)
+                a = ent.arg_value(0)
+                if z3.is_int_value(a):
+                    idx = a.as_long() - off
+                    if 0 <= idx < n and z3.is_int_value(ent.value()):
+                        patch[pos + idx] = ent.value().as_long() & 0xFF
+        for j in list(range(min(n, 64))) + list(range(max(n - 64, 0), n)):
+            patch[pos + j] = ev(fn(z3.IntVal(off + j))) & 0xFF
+        pos += n
+    return {"len": total, "fill": fill, "patch": {str(k): v for k, v in patch.items() if v != fill}}
